@@ -426,7 +426,7 @@ func TestDatetime(t *testing.T) {
 		default:
 			v = rapid.Int64().Draw(t, "any")
 		}
-		prec := rapid.SampledFrom([]string{"s", "ms", "ms", "s", "us", ""}).Draw(t, "prec")
+		prec := rapid.SampledFrom([]string{"s", "ms", "ms", "s", "us", "", "S", "MS", "Ms", "mS", "ns", "sec", " ms", "m"}).Draw(t, "prec")
 		layout := rapid.SampledFrom(names).Draw(t, "layout")
 		sit := rapid.SampledFrom([]string{"field", "variable", "tag", "absent"}).Draw(t, "situation")
 		var prog []*gen.Node
